@@ -482,3 +482,65 @@ Proof. apply owner_and_ttl_fixed_lem. reflexivity. Qed.
 Lemma never_ad_now cf q down work al r :
   x_reply (serve cur cf q down work al) = Some r -> r_same r = false -> r_ad r = false.
 Proof. apply never_ad_fixed_lem. reflexivity. Qed.
+
+(* ---------------- alias chains of any length ---------------- *)
+(* [alias_chain q l t]: following the CNAME records of l in order leads from
+   q to t (owners are matched case-insensitively, as DNS names are); DNAME
+   records are carried along — the CNAME the resolver synthesises from a
+   DNAME follows it in the answer section. *)
+Inductive alias_chain : list N -> list rr -> list N -> Prop :=
+| ac_end q t : lower q = lower t -> alias_chain q [] t
+| ac_cname q o ttl tgt rest t :
+    lower o = lower q -> alias_chain tgt rest t -> alias_chain q (RCNAME o ttl tgt :: rest) t
+| ac_dname q o ttl tgt rest t :
+    alias_chain q rest t -> alias_chain q (RDNAME o ttl tgt :: rest) t.
+
+Lemma alias_chain_cap ttl q l t : alias_chain q l t -> alias_chain q (map (cap_ttl ttl) l) t.
+Proof. induction 1; cbn [map cap_ttl]; constructor; auto. Qed.
+
+Lemma filter_chain_idem (l : list rr) : filter is_chain (filter is_chain l) = filter is_chain l.
+Proof.
+  induction l as [|x l IH]; [reflexivity|]. cbn [filter]. destruct (is_chain x) eqn:E; [|exact IH].
+  cbn [filter]. rewrite E, IH. reflexivity.
+Qed.
+Lemma filter_chain_cap ttl (l : list rr) :
+  filter is_chain (map (cap_ttl ttl) (filter is_chain l)) = map (cap_ttl ttl) (filter is_chain l).
+Proof.
+  induction l as [|x l IH]; [reflexivity|]. cbn [filter]. destruct (is_chain x) eqn:E; [|exact IH].
+  cbn [map filter]. destruct x; try discriminate E; cbn [cap_ttl is_chain]; rewrite IH; reflexivity.
+Qed.
+Lemma filter_chain_synth c ttl addrs : filter is_chain (synth_rrs c ttl addrs) = [].
+Proof.
+  assert (forall r, In r (synth_rrs c ttl addrs) -> is_chain r = false) as H.
+  { intros r Hr. apply synth_rrs_in in Hr as (p & o & t & ip & v4 & _ & _ & _ & _ & ->). reflexivity. }
+  induction (synth_rrs c ttl addrs) as [|x l IH]; [reflexivity|].
+  cbn [filter]. rewrite (H x (or_introl eq_refl)). apply IH. intros r Hr. apply H. right. exact Hr.
+Qed.
+
+(* the synthesised reply carries the alias chain of the A response — whatever
+   its length — from the queried name to its end, and every synthesised AAAA
+   sits at that end *)
+Lemma owner_after_alias_chain_lem v cf q m mark work ar r t :
+  x_path (serve v cf q (Some (m, mark)) work (QResp ar)) = PSynth ->
+  x_reply (serve v cf q (Some (m, mark)) work (QResp ar)) = Some r ->
+  alias_chain (q_name q) (filter is_chain (m_answer ar)) t ->
+  (forall o ta ip, In (RA o ta ip) (m_answer ar) -> o = t) ->
+  alias_chain (q_name q) (filter is_chain (r_answer r)) t
+  /\ (forall o ttl e, In (RAAAA o ttl e) (r_answer r) -> o = t)
+  /\ (exists ttl e, In (RAAAA t ttl e) (r_answer r)).
+Proof.
+  intros HP HR HC HA.
+  destruct (synth_reply_shape _ _ _ _ _ _ HP) as (m' & mark' & ar' & Ed & Ea & R & NE).
+  injection Ed as <- <-. injection Ea as <-. cbv zeta in R, NE. rewrite R in HR. injection HR as <-. cbn [r_answer].
+  split; [|split].
+  - rewrite filter_app, filter_chain_cap, filter_chain_synth, app_nil_r. apply alias_chain_cap. exact HC.
+  - intros o ttl e HI. apply synth_answer_aaaa in HI; [| apply filter_all | reflexivity ].
+    apply synth_rrs_in in HI as (p & o' & ta & ip & v4 & _ & Ha & _ & _ & E). injection E as -> _ _.
+    apply filter_In in Ha as (Ha & _). eapply HA. exact Ha.
+  - destruct (synth_rrs (compile cf) _ _) as [|x l] eqn:ES; [congruence|].
+    assert (In x (synth_rrs (compile cf) (synth_ttl v (m_ns m) (filter is_a (m_answer ar))) (filter is_a (m_answer ar)))) as Hx
+      by (rewrite ES; left; reflexivity).
+    apply synth_rrs_in in Hx as (p & o' & ta & ip & v4 & _ & Ha & _ & _ & ->).
+    apply filter_In in Ha as (Ha & _). rewrite (HA _ _ _ Ha).
+    eexists _, _. apply in_app_iff. right. left. reflexivity.
+Qed.
